@@ -33,6 +33,10 @@ struct Inner {
     fail: Option<(String, u64, Option<String>)>,
     fail_hits: u64,
     yield_seed: Option<u64>,
+    // overtake mode: delay an append at log.pre until a later seq of the same stream is flushed
+    overtake: Option<(HashSet<String>, Duration)>,
+    flushed_max: HashMap<String, u64>,
+    overtaken: u64,
 }
 
 pub struct Hub {
@@ -110,6 +114,40 @@ impl rip_kernel::verif::Sink for Hub {
                 }
             }
             fail = f;
+            if name == "log.flushed" {
+                if let (Some(st), Some(q)) = (
+                    fields.get("stream").and_then(|s| s.as_str()),
+                    fields.get("seq").and_then(|s| s.as_u64()),
+                ) {
+                    let e = g.flushed_max.entry(st.to_string()).or_insert(0);
+                    if q >= *e {
+                        *e = q;
+                    }
+                    self.cv.notify_all();
+                }
+            }
+            if name == "log.pre" {
+                if let Some((kinds, wait)) = g.overtake.clone() {
+                    let sk = fields.get("sk").and_then(|s| s.as_str()).unwrap_or("");
+                    if kinds.contains(sk) {
+                        let st = fields.get("stream").and_then(|s| s.as_str()).unwrap_or("").to_string();
+                        let q = fields.get("seq").and_then(|s| s.as_u64()).unwrap_or(0);
+                        let deadline = Instant::now() + wait;
+                        loop {
+                            if g.flushed_max.get(&st).map(|m| *m > q).unwrap_or(false) {
+                                g.overtaken += 1;
+                                break;
+                            }
+                            let now = Instant::now();
+                            if now >= deadline || g.overtake.is_none() {
+                                break;
+                            }
+                            let (ng, _) = self.cv.wait_timeout(g, deadline - now).unwrap();
+                            g = ng;
+                        }
+                    }
+                }
+            }
             if g.gate_on && g.gate_points.contains(name) && g.gated_actors.contains(&a) {
                 g.arrived.insert(a, (name.to_string(), fields.clone()));
                 self.cv.notify_all();
@@ -144,6 +182,18 @@ impl Hub {
     }
     pub fn set_record(&self, on: bool) {
         self.inner.lock().unwrap().record = on;
+    }
+    pub fn set_overtake(&self, kinds: &[&str], wait: Duration) {
+        let mut g = self.inner.lock().unwrap();
+        g.overtake = Some((kinds.iter().map(|s| s.to_string()).collect(), wait));
+        g.flushed_max.clear();
+        g.overtaken = 0;
+    }
+    pub fn end_overtake(&self) -> u64 {
+        let mut g = self.inner.lock().unwrap();
+        g.overtake = None;
+        self.cv.notify_all();
+        g.overtaken
     }
     pub fn set_yield_seed(&self, seed: Option<u64>) {
         self.inner.lock().unwrap().yield_seed = seed.map(|s| s | 1);
